@@ -115,6 +115,14 @@ func (g *FuncGen) callCommon(cc *ssa.CallCommon, res ssa.Value, in ssa.Instructi
 	pre := g.cur.clone()
 	if h := g.knownNoEffect(name); h {
 		rv = g.pureUnknown(name, cc, res)
+	} else if os.Getenv("GOVC_NOPURE") == "" && g.inferredPure(callee) {
+		// no contract, but the body provably writes nothing its caller can see (pure.go): state untouched,
+		// results arbitrary
+		g.c.note("inferred write-pure (no store outside its own locals, only pure callees): " + name)
+		nh := g.c.fresh("hwm", SInt) // it may allocate (and return) new objects
+		g.c.assert(fmt.Sprintf("(<= %s %s)", g.cur.hwm, nh))
+		g.cur.hwm = nh
+		rv = g.pureUnknown(name, cc, res)
 	} else {
 		rv = g.havocCall(name, cc, args, res, in)
 	}
